@@ -329,3 +329,81 @@ Print Assumptions C15_for_counter_regression.
 Print Assumptions C15_old_indexed_member_refuted.
 Print Assumptions C15_indexed_member_regression.
 Print Assumptions C15_header_regression.
+
+(* ========================================================================================================== *)
+(* The ASSEMBLED response.  The client does not receive analyze_today's list but the items of                  *)
+(* ProjectManager::generate_document_diagnostic_report, where UnusedVarAnalyzer's diagnostics stand between the *)
+(* parser's and the rule checkers'.  Model/Report.v: report t pd = the items in order (t the tree, pd the        *)
+(* document's parser diagnostics); Proofs/ReportProofs.v; witness Proofs/ReportWitness.v (dump of the real       *)
+(* parser).  of_uv d = the item the response carries for the analyser's diagnostic d (same range, severity,      *)
+(* message; source "gold", tag UNNECESSARY); is_unused_item / is_dup_item = the item's message is                 *)
+(* "Unused var: .." / "Var name already declared"; part 1 l = the items of l that come from UnusedVarAnalyzer.    *)
+(* ========================================================================================================== *)
+From GoldV Require Import Report ReportProofs ReportWitness.
+
+(* exactness on the response: the unused-variable warnings the client receives are the specified ones, each
+   once, in the specified order -- every tree, every list of parser diagnostics, whatever else is reported on
+   the same names and ranges *)
+Theorem C15_response_unused_exact : forall t pd,
+  filter is_unused_item (report t pd) = map of_uv (unused_spec t).
+Proof. exact report_unused_exact. Qed.
+
+Theorem C15_response_duplicates_exact : forall t pd,
+  filter is_dup_item (report t pd) = map of_uv (dup_spec t).
+Proof. exact report_dups_exact. Qed.
+
+(* nothing dropped, nothing invented: an analyser's diagnostic is in the response iff the analyser reported it *)
+Theorem C15_response_in_iff : forall t pd x,
+  In x (analyze_today t) <-> In (of_uv x) (report t pd).
+Proof. exact report_unused_in. Qed.
+
+(* ... exactly as often *)
+Theorem C15_response_multiplicity : forall t pd x,
+  count_occ diag_eq_dec (report t pd) (of_uv x) = count_occ diag_eq_dec (map of_uv (analyze_today t)) (of_uv x).
+Proof. intros t pd x. exact (report_multiplicity t pd (of_uv x)). Qed.
+
+(* per method on the response: UnusedVarAnalyzer's part of the response is, in order, the report of each method
+   node, a function of that node alone (C15_report_decomposes lifted) *)
+Theorem C15_response_per_method : forall t pd,
+  part 1 (report t pd) = flat_map (fun m => map of_uv (method_report key_today m)) (all_methods t).
+Proof. exact report_unused_per_method. Qed.
+
+(* the whole analyser list is intact inside the response, and it stands after the parser's items *)
+Theorem C15_response_analyser_list_intact : forall t pd,
+  part 1 (report t pd) = map of_uv (analyze_today t) /\
+  firstn (length pd) (report t pd) = map of_pdiag pd.
+Proof. intros t pd. split; [exact (report_part 1 t pd) | exact (proj1 (report_parser_first t pd))]. Qed.
+
+(* a top-level declaration (a method) contributes a list that depends on its subtree alone; the items about the
+   other declarations are unaffected by it *)
+Theorem C15_response_local : forall i r rg a p m q pd,
+  Permutation (report (Node KAstRoot i r rg a (p ++ m :: q)) pd)
+              (report (Node KAstRoot i r rg a (p ++ q)) pd ++ contrib m).
+Proof. exact report_local. Qed.
+
+(* repeating the request *)
+Theorem C15_response_idempotent : forall n t pd,
+  Forall (fun r => r = report t pd) (requests n (fresh_rdoc t pd)).
+Proof. exact report_idempotent. Qed.
+
+(* ---- non-vacuity: the real parser's tree of Proofs/ReportWitness.v (a syntax error at its end; func init with
+        locals Vx, y, y, z; proc Work with k, v): the response holds the error for the second `y` and four
+        warnings, `Vx` being flagged by two other checkers on the same token ---- *)
+Example C15_response_nonvacuous :
+  map brief (filter is_unused_item (report w_resp w_resp_pd)) = [(1, 2, 5, 6); (1, 2, 6, 6); (1, 2, 8, 6); (1, 2, 11, 6)]%N /\
+  map brief (filter is_dup_item (report w_resp w_resp_pd)) = [(1, 1, 7, 6)]%N /\
+  length (all_methods w_resp) = 2%nat /\ length (unused_spec w_resp) = 4%nat /\
+  length (report w_resp w_resp_pd) = 15%nat /\
+  length (filter (fun d => (pline (rstart (d_range d)) =? 5) && (pcol (rstart (d_range d)) =? 6))%N
+                 (report w_resp w_resp_pd)) = 3%nat.
+Proof. vm_compute. repeat split; reflexivity. Qed.
+
+Print Assumptions C15_response_unused_exact.
+Print Assumptions C15_response_duplicates_exact.
+Print Assumptions C15_response_in_iff.
+Print Assumptions C15_response_multiplicity.
+Print Assumptions C15_response_per_method.
+Print Assumptions C15_response_analyser_list_intact.
+Print Assumptions C15_response_local.
+Print Assumptions C15_response_idempotent.
+Print Assumptions C15_response_nonvacuous.
